@@ -789,7 +789,8 @@ func (s *State) extendFunctionEnv(
 		// By definition function parameters are local copies, deref argument values:
 		pval := object.Value(args[paramIdx])
 		needVariable := true
-		if !s.NoReg && pval.Type() == object.INTEGER {
+		// Constants can't be (re)bound: no register for those so CreateOrSet below reports the error.
+		if !s.NoReg && pval.Type() == object.INTEGER && !object.Constant(param.Value().Literal()) {
 			// We will release all these registers just by returning/dropping the env.
 			_, nbody, ok := setupRegister(env, param.Value().Literal(), pval.(object.Integer).Value, newBody)
 			if ok {
@@ -924,7 +925,7 @@ func (s *State) evalForInteger(fe *ast.ForExpression, start *int64, end int64, n
 	var newBody ast.Node
 	var register object.Register
 	newBody = fe.Body
-	if name != "" && !s.NoReg && s.env.HasRegisters() {
+	if name != "" && !s.NoReg && s.env.HasRegisters() && !object.Constant(name) {
 		var ok bool
 		register, newBody, ok = setupRegister(s.env, name, int64(startValue), fe.Body)
 		// Release on every way out of the loop (break, return, error, panic), not just normal completion.
